@@ -2,6 +2,7 @@
 from __future__ import annotations
 
 import ast
+import builtins as _builtins
 
 from ..core import Ctx
 from ..cfg import call_may_raise
@@ -2967,6 +2968,73 @@ def _put_version_guard(ctx: Ctx, put: FuncInfo):
                 return False
         return bool(heads)
 
+    def index_search_exhausted(fr: _Frame, w) -> bool:
+        """`i = 0` / `while i < len(<list>):` where a pass gets back to the loop head only over `<list>[i] == new value` being
+        false (tested before i is stepped), with exactly one `i += 1`, and without changing the list: when the test of the loop
+        fails, the positions 0 .. len - 1 were all looked at and no entry has the new value's id"""
+        if not isinstance(w, ast.While) or w.orelse:
+            return False
+        fi, c = fr.fi, fr.cfg
+        fs = _atoms_with_polarity(w.test, True)
+        if len(fs) != 1 or fs[0].op != "lt" or not fs[0].pos or not isinstance(strip_cast(fs[0].left), ast.Name):
+            return False
+        i = strip_cast(fs[0].left).id
+        if i in fi.params() or not _len_of(fr, fs[0].right, lambda x: is_list_in(fr, x)):
+            return False
+        steps, inits = [], []
+        for st, val, idx in local_defs(fi, i):
+            inside = w in list(ancestors(st))
+            if isinstance(st, ast.AugAssign) and isinstance(st.op, ast.Add) and const_value(st.value) == 1 and inside:
+                steps.append(st)
+            elif isinstance(st, (ast.Assign, ast.AnnAssign)) and idx is None and val is not None and const_value(val) == 0 and type(const_value(val)) is int and not inside:
+                inits.append(st)
+            else:
+                return False
+        if not steps or not inits:
+            return False
+        heads = [n for n in c.nodes if n.kind == "loop" and n.ast is w]
+        tests = [n for n in c.nodes if n.kind == "cond" and n.ast is not None and (n.ast is w.test or w.test in list(ancestors(n.ast)))]
+        body = [v for n in tests for v, lab in n.succ if lab is True]
+        stepn = [n for st in steps for n in c.nodes_for(st)]
+        if not heads or not body or not stepn:
+            return False
+        at_i = lambda x: isinstance(x, ast.Subscript) and is_list_in(fr, x.value) and isinstance(x.slice, ast.Name) and x.slice.id == i  # noqa: E731
+        aliases = {}
+        for st, targets, value in _assignments(fi):
+            if len(targets) == 1 and isinstance(targets[0], ast.Name) and at_i(strip_cast(value)) and len(local_defs(fi, targets[0].id)) == 1 \
+                    and targets[0].id not in fi.params() and w in list(ancestors(st)):
+                aliases[targets[0].id] = st
+        elem = lambda x: at_i(x) or isinstance(x, ast.Name) and x.id in aliases  # noqa: E731
+        differs = lambda u, v, lab: u.kind == "cond" and lab in (True, False) and same_id_fact(fr, fact_of(u.ast, lab), elem, False)  # noqa: E731
+        if any(h in c.reach(body, cut_nodes=fr.blocked, cut_edge=differs) for h in heads):
+            return False
+        if any(h in c.reach(body, cut_nodes=[*fr.blocked, *stepn]) for h in heads):
+            return False
+        after_step = c.reach([v for sn in stepn for v, lab in sn.succ if lab != "exc"], cut_nodes=heads)
+        if any(t in after_step for t in stepn):
+            return False
+        # the comparison (and the read of the element it looks at) uses the position of this pass: it is not reached after the step
+        for u in c.nodes:
+            if u.kind == "cond" and u.ast is not None and w in list(ancestors(u.ast)) and any(differs(u, None, lab) for lab in (True, False)):
+                if u in after_step:
+                    return False
+                for nm in {x.id for x in ast.walk(u.ast) if isinstance(x, ast.Name) and x.id in aliases}:
+                    dn = c.nodes_for(aliases[nm])
+                    if any(d in after_step for d in dn) or u in c.reach(body, cut_nodes=dn):
+                        return False
+        # the list is not changed on the way back to the head
+        for x in ast.walk(w):
+            mut = isinstance(x, ast.Call) and isinstance(x.func, ast.Attribute) and x.func.attr in (*_LIST_MUTATORS, "sort", "reverse", "append", "extend") \
+                and is_list_in(fr, x.func.value)
+            if isinstance(x, (ast.Delete, ast.Assign, ast.AugAssign, ast.AnnAssign)):
+                tg = x.targets if isinstance(x, (ast.Assign, ast.Delete)) else [x.target]
+                mut = any(isinstance(e, ast.Subscript) and is_list_in(fr, e.value) for t in tg for e in (t.elts if isinstance(t, (ast.Tuple, ast.List)) else [t]))
+            if mut:
+                for n in c.nodes_for(x):
+                    if any(h in c.reach([v for v, lab in n.succ if lab != "exc"]) for h in heads):
+                        return False
+        return True
+
     def p_guard(g: _Frame) -> bool:
         """the frame's site is reached only with `not older` or `no entry with this id` established"""
         fs = g.facts()
@@ -2991,6 +3059,10 @@ def _put_version_guard(ctx: Ctx, put: FuncInfo):
                 f = fact_of(u.ast, lab)
                 at = fr.at(u.ast)
                 ok = not_older(at, f, at.facts() + [f]) or not_found(at, f)
+                if not ok and lab is False:
+                    # the test of a `while` search loop failed: the search is exhausted
+                    w = next((a for a in [parent(u.ast), *ancestors(u.ast)] if isinstance(a, ast.While) and (a.test is u.ast or a.test in list(ancestors(u.ast)))), None)
+                    ok = w is not None and len(_atoms_with_polarity(w.test, True)) == 1 and index_search_exhausted(fr, w)
                 if not ok:
                     grp = _decision_frames(at, f)
                     ok = bool(grp) and all(_holds(g, p_guard) for g in grp)
@@ -3236,7 +3308,81 @@ def rule_storage(ctx: Ctx) -> None:
             return False
         r = cfgc.reach(body, cut_nodes=progress)
         return not any(h in r for h in heads)
-    scans = [w for w in whiles if w not in early and any(o in list(ancestors(w)) for o in outer) and full_scan(w)]
+    def down_scan(w: ast.While) -> bool:
+        """`i = len(<list>)` / `while i > 0:` with `i -= 1` before any use of i, or `i = len(<list>) - 1` / `while i >= 0:` with
+        `i -= 1` after every use of i: one pass per position, from the last to the first; deleting <list>[i] (the only change of
+        the list in the loop) does not move the elements at the positions still to come"""
+        fs = _atoms_with_polarity(w.test, True)
+        if len(fs) != 1 or w.orelse:
+            return False
+        is_name = lambda x: isinstance(strip_cast(x), ast.Name) and strip_cast(x).id not in cl.params()  # noqa: E731
+        f, i = fs[0], None
+        for x in (f.left, f.right):
+            if x is not None and is_name(x):
+                i = strip_cast(x).id
+        if i is None:
+            return False
+        b = _int_bound(f, lambda x: is_name(x) and strip_cast(x).id == i)
+        if b is None and f.op == "truthy" and f.pos:
+            b = ("ne", 0)
+        if b not in (("ge", 1), ("ne", 0), ("ge", 0)):
+            return False
+        first = 0 if b == ("ge", 0) else 1                      # the value of i with which the last pass starts
+        steps, inits = [], []
+        for st, val, idx in local_defs(cl, i):
+            inside = w in list(ancestors(st))
+            if isinstance(st, ast.AugAssign) and isinstance(st.op, ast.Sub) and const_value(st.value) == 1 and inside:
+                steps.append(st)
+                continue
+            v = resolve(cl, val) if val is not None and idx is None and isinstance(st, (ast.Assign, ast.AnnAssign)) else None
+            if inside and isinstance(v, ast.BinOp) and isinstance(v.op, ast.Sub) and is_name(v.left) and strip_cast(v.left).id == i and const_value(v.right) == 1:
+                steps.append(st)
+                continue
+            if inside or v is None:
+                return False
+            if first == 0:
+                if not (isinstance(v, ast.BinOp) and isinstance(v.op, ast.Sub) and const_value(v.right) == 1):
+                    return False
+                v = resolve(cl, v.left)
+            if not (isinstance(v, ast.Call) and chain(v.func) == "len" and len(v.args) == 1 and not v.keywords and is_vals(v.args[0])):
+                return False
+            inits.append(st)
+        if not steps or not inits or any(isinstance(x, (ast.Break, ast.Return)) for x in ast.walk(w)):
+            return False
+        # the list changes in the loop only by deleting the element at i
+        at_i = lambda e: isinstance(e, ast.Subscript) and is_vals(e.value) and isinstance(e.slice, ast.Name) and e.slice.id == i  # noqa: E731
+        for x in ast.walk(w):
+            if isinstance(x, ast.Call) and isinstance(x.func, ast.Attribute) and is_vals(x.func.value) \
+                    and not (x.func.attr == "pop" and len(x.args) == 1 and not x.keywords and isinstance(x.args[0], ast.Name) and x.args[0].id == i):
+                return False
+            if isinstance(x, ast.Delete) and not all(at_i(t) for t in x.targets):
+                return False
+            if isinstance(x, (ast.Assign, ast.AugAssign, ast.AnnAssign)):
+                for t in (x.targets if isinstance(x, ast.Assign) else [x.target]):
+                    for e in (t.elts if isinstance(t, (ast.Tuple, ast.List)) else [t]):
+                        if isinstance(e, ast.Subscript) and (is_vals(e.value) or is_vals(e)):
+                            return False
+        heads = [n for n in cfgc.nodes if n.kind == "loop" and n.ast is w]
+        tests = [n for n in cfgc.nodes if n.kind == "cond" and n.ast is not None and (n.ast is w.test or w.test in list(ancestors(n.ast)))]
+        body = [v for n in tests for v, lab in n.succ if lab is True]
+        stepn = [n for st in steps for n in cfgc.nodes_for(st)]
+        if not heads or not body or not stepn:
+            return False
+        # every pass steps i exactly once
+        if any(h in cfgc.reach(body, cut_nodes=stepn) for h in heads):
+            return False
+        for sn in stepn:
+            if any(t in cfgc.reach([v for v, lab in sn.succ if lab != "exc"], cut_nodes=heads) for t in stepn):
+                return False
+        # ... and uses i only after the step (passes start with len .. 1) / only before it (passes start with len - 1 .. 0)
+        users = [n for n in cfgc.nodes if n.ast is not None and n not in stepn and n not in tests and n.kind in ("stmt", "cond")
+                 and any(isinstance(x, ast.Name) and x.id == i for x in walk_no_nested(n.ast)) and w in list(ancestors(n.ast))]
+        if first == 1:
+            early_use = cfgc.reach(body, cut_nodes=stepn)
+        else:
+            early_use = cfgc.reach([v for sn in stepn for v, lab in sn.succ if lab != "exc"], cut_nodes=heads)
+        return not any(u in early_use for u in users)
+    scans = [w for w in whiles if w not in early and any(o in list(ancestors(w)) for o in outer) and (full_scan(w) or down_scan(w))]
     if any(w not in scans for w in whiles) and not early:
         raise AnalysisError("undecided: Storage.clean sweeps with a while loop whose coverage of the list is not decided")
     swept = bool(outer) and (bool(inner) or bool(filters) or bool(scans))
@@ -3488,7 +3634,380 @@ def rule_requester_address(ctx: Ctx) -> None:
         raise AnalysisError("undecided: how Bucket.add recognises an already known node id is not decided")
 
 
+# ------------------------------------------------------------------------------------------------ source-level desugaring
+# The load-time normaliser inlines NEW helpers of the SAME file.  Three behaviour-preserving program transformations bring
+# constructs it does not reach into that form, as source text of the analysed variant, before any rule runs; the variant
+# is then loaded again (and normalised by the engine) from the rewritten text:
+#   (A) a method / function decorated with a NEW plain decorator `@d` / `@d(<constants>)` whose wrapper closes over nothing
+#       but the decorated function: `@d def f(P): B`  ==  `def f_undecorated(P): B` + `def f(<wrapper's parameters>): <wrapper's
+#       body with handler(self, ..) written as self.f_undecorated(..)>`  (the definition of decorator application);
+#   (B) a NEW module-level function imported from another module of this code: the definition is copied into the importing
+#       file (its free names must denote the same objects there: same imports, or imports that are added);
+#   (C) a NEW mixin / base class that only one class derives from: its members are the deriving class's members.
+# A rewrite that cannot be shown to preserve behaviour is not made (the construct then stays as written).
+
+_DHT_FILES = (DC, DS, DD, "ipv8/dht/routing.py")
+_NOT_FUNCTION_DECORATORS = ("staticmethod", "classmethod", "property", "cached_property", "functools.cached_property", "abstractmethod")
+
+
+def _table_functions(rel: str) -> set[str]:
+    from ..localnames import load_table
+    return set(load_table().get(rel) or ())
+
+
+def _strip_doc(body: list) -> list:
+    return [st for st in body if not (isinstance(st, ast.Expr) and isinstance(st.value, ast.Constant) and isinstance(st.value.value, str))]
+
+
+def _fn_bound_names(fn) -> set[str]:
+    return _bound_names(fn) | {n.name for n in ast.walk(fn) if isinstance(n, (ast.FunctionDef, ast.AsyncFunctionDef, ast.ClassDef)) and n is not fn}
+
+
+def _strip_annotations(fn):
+    """a copy of the function without annotations (never evaluated under `from __future__ import annotations`; a copy in
+    another file must not depend on the names they mention)"""
+    fn = clone(fn)
+    for x in ast.walk(fn):
+        if isinstance(x, (ast.FunctionDef, ast.AsyncFunctionDef)):
+            x.returns = None
+        elif isinstance(x, ast.arg):
+            x.annotation = None
+
+    class _Ann(ast.NodeTransformer):
+        def visit_AnnAssign(self, n):
+            self.generic_visit(n)
+            if n.value is None:
+                return ast.Pass()
+            return ast.copy_location(ast.Assign(targets=[n.target], value=n.value), n)
+    return _Ann().visit(fn)
+
+
+def _stable_expr(e: ast.AST) -> bool:
+    """an argument of a decorator factory that denotes the same value whenever it is evaluated: constants and (dotted) names"""
+    if isinstance(e, ast.Constant):
+        return True
+    if isinstance(e, ast.UnaryOp) and isinstance(e.operand, ast.Constant):
+        return True
+    if isinstance(e, ast.Tuple):
+        return all(_stable_expr(x) for x in e.elts)
+    while isinstance(e, ast.Attribute):
+        e = e.value
+    return isinstance(e, ast.Name)
+
+
+def _decorator_wrapper(dnode, dec):
+    """(wrapper FunctionDef (a copy), name that stands for the decorated function) for decorator definition dnode applied
+    as `@d` (dec is a Name) or `@d(args)` (dec is a Call): None when dnode is not a plain closure-returning decorator"""
+    def plain(fn):
+        body = _strip_doc(fn.body)
+        a = fn.args
+        if len(body) != 2 or not isinstance(body[0], (ast.FunctionDef, ast.AsyncFunctionDef)) or not isinstance(body[1], ast.Return) \
+                or not isinstance(body[1].value, ast.Name) or body[1].value.id != body[0].name or fn.decorator_list or isinstance(fn, ast.AsyncFunctionDef):
+            return None
+        if a.vararg or a.kwarg or a.kwonlyargs or a.posonlyargs:
+            return None
+        return body[0]
+    inner = plain(dnode)
+    if inner is None:
+        return None
+    env: dict[str, ast.AST] = {}
+    if isinstance(dec, ast.Call):
+        env = _bind_call(dnode.args, dec, False)
+        if env is None or not all(_stable_expr(v) for v in env.values()):
+            return None
+        deco = inner
+        inner = plain(deco)
+        if inner is None or len(deco.args.args) != 1 or deco.args.defaults:
+            return None
+        hname = deco.args.args[0].arg
+    else:
+        if len(dnode.args.args) != 1 or dnode.args.defaults:
+            return None
+        hname = dnode.args.args[0].arg
+    for d in inner.decorator_list:
+        if not (isinstance(d, ast.Call) and chain(d.func) in ("wraps", "functools.wraps") and len(d.args) == 1 and not d.keywords
+                and isinstance(d.args[0], ast.Name) and d.args[0].id == hname):
+            return None
+    w = clone(inner)
+    w.decorator_list = []
+    bound = _fn_bound_names(w)
+    if hname in bound or any(k in bound for k in env):
+        return None
+    if any(isinstance(x, (ast.Nonlocal, ast.Global)) for x in ast.walk(w)):
+        return None
+    if env:
+        w = _subst(w, env, {})
+    return w, hname
+
+
+def _desugar_decorated(fn, w, hname: str, is_method: bool, new_name: str):
+    """the two definitions `@d def fn` stands for; None when the wrapper uses the decorated function other than by calling it"""
+    a = w.args
+    first = a.args[0].arg if a.args else None
+    hcalls = [c for c in ast.walk(w) if isinstance(c, ast.Call) and isinstance(c.func, ast.Name) and c.func.id == hname]
+    uses = [n for n in ast.walk(w) if isinstance(n, ast.Name) and n.id == hname]
+    if not hcalls or len(uses) != len(hcalls):
+        return None
+    if is_method and (first is None or a.posonlyargs or first in _bound_names(ast.Module(body=w.body, type_ignores=[]))):
+        return None
+    fa = fn.args
+    if a.vararg or a.kwarg:
+        # wrapper(self, *args, **kwargs) that hands `*args, **kwargs` through: the wrapper takes the decorated function's parameters
+        va, kw = a.vararg.arg if a.vararg else None, a.kwarg.arg if a.kwarg else None
+        lead = [x.arg for x in a.args]
+        if a.kwonlyargs or a.defaults or fa.posonlyargs or len(fa.args) < len(lead):
+            return None
+        star_uses = [n for n in ast.walk(w) if isinstance(n, ast.Name) and n.id in (va, kw)]
+        seen = 0
+        rest_pos = [x.arg for x in fa.args[len(lead):]]
+        for c in hcalls:
+            pos = c.args
+            if len(pos) != len(lead) + (1 if va else 0) or [x.id if isinstance(x, ast.Name) else None for x in pos[:len(lead)]] != lead:
+                return None
+            if va and not (isinstance(pos[-1], ast.Starred) and isinstance(pos[-1].value, ast.Name) and pos[-1].value.id == va):
+                return None
+            if len(c.keywords) != (1 if kw else 0) or kw and not (c.keywords[0].arg is None and isinstance(c.keywords[0].value, ast.Name) and c.keywords[0].value.id == kw):
+                return None
+            if (fa.vararg is not None and not va) or (fa.kwarg is not None and not kw) or (rest_pos and not va) or (fa.kwonlyargs and not kw):
+                return None
+            seen += (1 if va else 0) + (1 if kw else 0)
+            c.args = list(pos[:len(lead)]) + [ast.Name(id=p, ctx=ast.Load()) for p in rest_pos] \
+                + ([ast.Starred(value=ast.Name(id=fa.vararg.arg, ctx=ast.Load()), ctx=ast.Load())] if fa.vararg else [])
+            c.keywords = [ast.keyword(arg=k.arg, value=ast.Name(id=k.arg, ctx=ast.Load())) for k in fa.kwonlyargs] \
+                + ([ast.keyword(arg=None, value=ast.Name(id=fa.kwarg.arg, ctx=ast.Load()))] if fa.kwarg else [])
+        if seen != len(star_uses):
+            return None
+        taken = _fn_bound_names(w) - {va, kw}
+        if any(x.arg in taken for x in [*fa.args[len(lead):], *fa.kwonlyargs, *([fa.vararg] if fa.vararg else []), *([fa.kwarg] if fa.kwarg else [])]):
+            return None
+        nd = len(fa.args) - len(lead)
+        a.args = list(a.args) + [clone(x) for x in fa.args[len(lead):]]
+        a.defaults = [clone(x) for x in fa.defaults[-nd:]] if nd and fa.defaults else []
+        if len(a.defaults) > nd:
+            return None
+        a.vararg, a.kwarg = clone(fa.vararg), clone(fa.kwarg)
+        a.kwonlyargs, a.kw_defaults = [clone(x) for x in fa.kwonlyargs], [clone(x) for x in fa.kw_defaults]
+    for c in hcalls:
+        if is_method:
+            if not c.args or not isinstance(c.args[0], ast.Name) or c.args[0].id != first:
+                return None
+            c.func = ast.Attribute(value=ast.Name(id=first, ctx=ast.Load()), attr=new_name, ctx=ast.Load())
+            c.args = list(c.args[1:])
+        else:
+            c.func = ast.Name(id=new_name, ctx=ast.Load())
+    return w
+
+
+def _foreign_function_copy(repo, m2, fname: str, dst, taken: set[str], depth: int = 0):
+    """([function definitions], [import statements]) that make the NEW module-level function m2.fname available in module
+    dst with every free name denoting the same object as in m2; None when that cannot be shown"""
+    if depth > 3 or fname not in m2.functions or fname in _table_functions(m2.relpath):
+        return None
+    try:
+        tree = ast.parse(m2.src)
+    except SyntaxError:
+        return None
+    node = next((st for st in tree.body if isinstance(st, (ast.FunctionDef, ast.AsyncFunctionDef)) and st.name == fname), None)
+    if node is None or node.decorator_list:
+        return None
+    node = _strip_annotations(node)
+    bound = _fn_bound_names(node)
+    defs, imps = [node], []
+    dst_bound = set(dst.imports) | set(dst.functions) | set(dst.classes) | set(dst.constants)
+    for x in sorted({n.id for n in ast.walk(node) if isinstance(n, ast.Name) and isinstance(n.ctx, ast.Load)} - bound):
+        if x == fname:
+            continue
+        if x in m2.functions and x not in _table_functions(m2.relpath):
+            if x in taken:
+                continue
+            if x in dst_bound and not (x in dst.imports and repo.resolve_name(dst, x) is m2.functions[x]):
+                return None
+            sub = _foreign_function_copy(repo, m2, x, dst, taken | {fname, x}, depth + 1)
+            if sub is None:
+                return None
+            defs = sub[0] + defs
+            imps += sub[1]
+        elif x in m2.imports:
+            mod, attr = m2.imports[x]
+            if x in dst.imports:
+                if dst.imports[x] != (mod, attr):
+                    return None
+            elif x in dst_bound:
+                return None
+            elif attr is None:
+                imps.append(ast.Import(names=[ast.alias(name=mod, asname=None if mod == x else x)]))
+            else:
+                imps.append(ast.ImportFrom(module=mod, names=[ast.alias(name=attr, asname=None if attr == x else x)], level=0))
+        elif x in m2.functions or x in m2.classes or x in m2.constants:
+            if x in dst.imports:
+                if dst.imports[x] != (m2.name, x):
+                    return None
+            elif x in dst_bound:
+                return None
+            else:
+                imps.append(ast.ImportFrom(module=m2.name, names=[ast.alias(name=x, asname=None)], level=0))
+        elif hasattr(_builtins, x):
+            if x in dst_bound:
+                return None
+        else:
+            return None
+    return defs, imps
+
+
+def _desugar_module(repo, m, all_src: str):
+    """the source text of module m with the constructs (A) and (B) written out; None when there is nothing to rewrite"""
+    try:
+        tree = ast.parse(m.src)
+    except SyntaxError:
+        return None
+    changed = False
+    known = _table_functions(m.relpath)
+    top_bound = set(m.imports) | set(m.functions) | set(m.classes) | set(m.constants)
+    # ---- (B) NEW functions of other modules: `from .mod import f`, `from . import mod` + `mod.f`
+    added_defs, added_imps, copied = [], [], set()
+
+    def copy_in(m2, fname: str, local: str) -> bool:
+        if (m2.relpath, fname, local) in copied:
+            return True
+        if local != fname:
+            return False
+        got = _foreign_function_copy(repo, m2, fname, m, {fname})
+        if got is None:
+            return False
+        for d in got[0]:
+            if d.name not in {x.name for x in added_defs}:
+                added_defs.append(d)
+        for i in got[1]:
+            if ast.dump(i) not in {ast.dump(x) for x in added_imps}:
+                added_imps.append(i)
+        copied.add((m2.relpath, fname, local))
+        return True
+
+    for st in list(tree.body):
+        if not isinstance(st, ast.ImportFrom):
+            continue
+        keep = []
+        for a in st.names:
+            local = a.asname or a.name
+            r = repo.resolve_name(m, local) if local in m.imports else None
+            if isinstance(r, FuncInfo) and r.module is not m and r.cls is None and r.qualname == r.name and r.module.functions.get(r.name) is r \
+                    and copy_in(r.module, r.name, local):
+                changed = True
+                continue
+            keep.append(a)
+        if keep:
+            st.names = keep
+        else:
+            tree.body.remove(st)
+    mod_aliases = {}
+    for local, (mod, attr) in m.imports.items():
+        r = repo.resolve_name(m, local) if attr is not None else None
+        m2 = repo.modules.get(mod) if attr is None else r[1] if isinstance(r, tuple) and r[0] == "module" else None
+        if m2 is not None and m2 is not m:
+            mod_aliases[local] = m2
+    if mod_aliases:
+        shadowed = {n.id for n in ast.walk(tree) if isinstance(n, ast.Name) and isinstance(n.ctx, (ast.Store, ast.Del))} \
+            | {a.arg for n in ast.walk(tree) if isinstance(n, ast.arguments) for a in [*n.posonlyargs, *n.args, *n.kwonlyargs, *([n.vararg] if n.vararg else []), *([n.kwarg] if n.kwarg else [])]}
+
+        class _ModAttr(ast.NodeTransformer):
+            hit = False
+
+            def visit_Attribute(self, n):
+                self.generic_visit(n)
+                if isinstance(n.value, ast.Name) and isinstance(n.ctx, ast.Load) and n.value.id in mod_aliases and n.value.id not in shadowed:
+                    m2 = mod_aliases[n.value.id]
+                    if n.attr in m2.functions and n.attr not in _table_functions(m2.relpath) and n.attr not in shadowed \
+                            and (n.attr not in top_bound or (m2.relpath, n.attr, n.attr) in copied) and copy_in(m2, n.attr, n.attr):
+                        self.hit = True
+                        return ast.copy_location(ast.Name(id=n.attr, ctx=ast.Load()), n)
+                return n
+        t = _ModAttr()
+        tree = t.visit(tree)
+        changed = changed or t.hit
+    if added_defs or added_imps:
+        at = max([i for i, st in enumerate(tree.body) if isinstance(st, (ast.Import, ast.ImportFrom))], default=-1) + 1
+        tree.body[at:at] = added_imps + added_defs
+    # ---- (A) NEW plain decorators
+    for _ in range(4):
+        progress = False
+        top_defs = {st.name: st for st in tree.body if isinstance(st, ast.FunctionDef)}
+        for owner in [tree] + [c for c in tree.body if isinstance(c, ast.ClassDef)]:
+            for fn in list(owner.body):
+                if not isinstance(fn, (ast.FunctionDef, ast.AsyncFunctionDef)) or not fn.decorator_list or fn.name.startswith("__"):
+                    continue
+                for i in range(len(fn.decorator_list) - 1, -1, -1):
+                    dec = fn.decorator_list[i]
+                    name = dec.id if isinstance(dec, ast.Name) else dec.func.id if isinstance(dec, ast.Call) and isinstance(dec.func, ast.Name) else None
+                    dnode = top_defs.get(name) if name is not None and name not in known else None
+                    got = _decorator_wrapper(dnode, dec) if dnode is not None and dnode is not fn else None
+                    if got is None:
+                        if (chain(dec.func) if isinstance(dec, ast.Call) else chain(dec)) in _NOT_FUNCTION_DECORATORS or not isinstance(dec, (ast.Name, ast.Call)):
+                            break                      # what is above does not wrap a plain function
+                        continue
+                    new_name = fn.name + "_undecorated"
+                    if new_name in all_src:
+                        break
+                    is_method = isinstance(owner, ast.ClassDef)
+                    w = _desugar_decorated(fn, got[0], got[1], is_method, new_name)
+                    if w is None:
+                        break
+                    body_fn = clone(fn)
+                    body_fn.name = new_name
+                    body_fn.decorator_list = [clone(x) for x in fn.decorator_list[i + 1:]]
+                    w.name = fn.name
+                    w.decorator_list = [clone(x) for x in fn.decorator_list[:i]]
+                    w.returns = None
+                    ast.copy_location(w, fn)
+                    k = owner.body.index(fn)
+                    owner.body[k:k + 1] = [w, body_fn]
+                    progress = changed = True
+                    break
+        if not progress:
+            break
+    if not changed:
+        return None
+    ast.fix_missing_locations(tree)
+    try:
+        text = ast.unparse(tree)
+        compile(text, m.relpath, "exec", dont_inherit=True, flags=0)
+    except Exception:  # noqa: BLE001
+        return None
+    return text
+
+
+def _desugared_repo(repo):
+    """the repository model of the same variant with (A) / (B) written out in the DHT files (the model itself when there is
+    nothing to write out)"""
+    cached = getattr(repo, "_c15_desugared", None)
+    if cached is not None:
+        return cached
+    out = repo
+    try:
+        all_src = None
+        over = {}
+        for rel in _DHT_FILES:
+            m = repo.by_relpath.get(rel)
+            if m is None or ("@" not in m.src and "import" not in m.src):
+                continue
+            if all_src is None:
+                all_src = "\n".join(x.src for x in repo.modules.values())
+            text = _desugar_module(repo, m, all_src)
+            if text is not None:
+                over[rel] = text
+        if over:
+            from ..model import Repo
+            out = Repo(repo.root, overrides={**(repo.overrides or {}), **over})
+    except AnalysisError:
+        out = repo
+    try:
+        repo._c15_desugared = out
+    except Exception:  # noqa: BLE001
+        pass
+    return out
+
+
 def run(ctx: Ctx) -> None:
+    ctx.repo = _desugared_repo(ctx.repo)
     rule_store_gate(ctx)
     rule_token(ctx)
     rule_signed(ctx)
